@@ -114,6 +114,12 @@ def init_worker(*props):
 
 
 def run_case(case):
+    if case.get("engine") == "R":
+        from vf import report_runs, worlds
+
+        worlds.uninstall()
+        X._MGR.clear()
+        return report_runs.run_case(case)
     if case.get("engine") == "S":
         from vf import hourly_size, worlds
 
@@ -163,6 +169,10 @@ def main_for(prop, run: core.Run, rule_extra: str, require=(), only=None):
         # ... and runs that cannot meet the limits and were not asked to continue: they end with a ValueError, nothing else
         fcases += [{"engine": "F", "method": mth, "cap": None, "cont": False, "load": "too_large", "casing": "upper"} for mth in (("nearsquare",) if run.tier == "quick" else ("nearsquare", "rectangle", "bizoned", "rowwise"))]
         run.drive(fcases, family="F", init_args=(prop, "B"), chunksize=1)
+    if prop == "C12" and (not only or "R" in only):
+        rcases = [{"engine": "R", "kind": k, "method": mth, "load": ld} for k in ("setter_after_design", "report_read_after_next_design")
+                  for mth, ld in ((("nearsquare", "office"),) if run.tier == "quick" else (("nearsquare", "office"), ("rectangle", "mirror"), ("bizoned", "office"), ("rowwise", "balanced")))]
+        run.drive(rcases, family="R", init_args=(prop, "B"), chunksize=1)
     if prop == "C02" and (not only or "S" in only):
         # sizing one real exchanger whose long-time table reaches beyond the allowed height window, loads far too large / far too small:
         # the height that comes back stays inside [min_height, max_height]
